@@ -14,6 +14,8 @@ import Gozod.Model.StrU
 import Gozod.Model.PrimMethodsSpec
 import Gozod.Model.Regex
 import Gozod.Model.NumChecks
+import Gozod.Model.GoEq
+import Gozod.Model.StrSpec
 import Gozod.Drv.C10
 import Gozod.Drv.C16
 namespace Gozod.Drv.C01
@@ -66,27 +68,30 @@ def parseNChecks : Nat → List String → Option (List (Check NumChecks.NPred U
     pure (.pred .safe false none :: cs, r)
   | _, _ => none
 
-/-- The documented meaning of a pure-literal pattern, as a regular expression for the derivative matcher
-    of `Gozod.Model.Regex` (C20's spec machinery): unanchored = `.*lit.*` over all bytes. -/
-def reOfLit (mode : Nat) (lit : Bytes) : Re :=
-  let any := Re.star (Re.cls [(0, 255)])
-  let l := Re.seqs (lit.map Re.byte)
-  match mode with
-  | 0 => Re.seq any (Re.seq l any)
-  | 1 => Re.seq l any
-  | 2 => Re.seq any l
-  | _ => l
-
-/-- The spec environment for strings: literal patterns decided by the derivative matcher, everything
-    else by its byte-level definition; overwrites with Go's Unicode behaviour. -/
-def specEnvStr : Env Str.SPred Str.SOw Nat Bytes :=
-  ⟨fun p b => match p with
-    | .relit m l => Re.accepts (reOfLit m l) b
-    | p => Str.holds p b,
-   StrU.apply, Str.customTr⟩
+/-- The spec environment for strings: every check decided from its documented meaning by `Str.specHolds`
+    (lengths; prefix / suffix / infix / letter-case / patterns as regular languages through the derivative matcher of
+    Model/Regex.lean) — not through `Str.holds`, which `holds_iff_spec` ties to the same meaning (`Str.Spec`) by
+    theorem; overwrites with Go's Unicode behaviour. -/
+def specEnvStr : Env Str.SPred Str.SOw Nat Bytes := ⟨Str.specHolds, StrU.apply, Str.customTr⟩
 
 /-- The numeric checks as they evaluate on a value of a NAMED numeric type: every one is false. -/
 def namedEnv : Env NumChecks.NPred Unit Unit Num := ⟨fun _ _ => false, fun _ v => v, fun _ v => v⟩
+
+/-- A value token `<dynamic type>:<payload>` of the harness (`dynTok`) as a Go interface value. -/
+def parseGo (tok : String) : GoEq.GoVal :=
+  match tok.splitOn ":" with
+  | ty :: rest =>
+    let repr := ":".intercalate rest
+    if ty == "string" || ty == "main.myStr" then .str ty ((unhex repr).getD [])
+    else if ty == "float64" || ty == "float32" then
+      match repr.toNat? with
+      | some b => .float ty (F.ofBits b)
+      | none => .opaque ty repr
+    else if ty == "bool" then .bool ty (repr == "true")
+    else match repr.toInt? with
+      | some v => .int ty v
+      | none => .opaque ty repr
+  | [] => .opaque "" tok
 
 def specAll {P O T V} (env : Env P O T V) (cs : List (Check P O)) (v : V) : Bool :=
   (List.range cs.length).all fun k => !failsAt env cs k v
@@ -187,9 +192,12 @@ def handleLine (line : String) : String :=
       | [x] =>
         let isPtr := x.endsWith "*"
         let x := if isPtr then (x.dropEnd 1).toString else x
-        let acc := vals.contains x
-        let m := if acc then "ok:" ++ x else "rej:value"
-        m ++ "\t" ++ specVerdict (if acc then some x else none) impl
+        -- model: Go's `==` on interface values (`GoEq.enumAccepts`: map lookup / slices.ContainsFunc literalEqual);
+        -- spec: "one of the listed values" decided without `goEq` (`GoEq.specOneOf`); c01_enum_iff / c01_enum_spec_iff
+        let ms := vals.map parseGo
+        let gx := parseGo x
+        let m := if GoEq.enumAccepts ms gx then "ok:" ++ x else "rej:value"
+        m ++ "\t" ++ specVerdict (if GoEq.specOneOf ms gx then some x else none) impl
       | ["foreign", _] => "rej:value\t" ++ specVerdict none impl
       | _ => "bad-op"
     | _ => "bad-op"
